@@ -1,6 +1,7 @@
 package c16
 
 import (
+	"bytes"
 	"fmt"
 	"math/rand"
 	"os"
@@ -57,6 +58,8 @@ func (area) Run(c *core.Ctx) error {
 				caseBatch(c, r)
 			case i%8 == 3:
 				caseEvict(c, r)
+			case i%8 == 5:
+				caseFlatStream(c, r)
 			case i%8 == 7:
 				caseSingle(c, r, 120) // malformed stream
 			default:
@@ -188,6 +191,16 @@ func checkCanonical(c *core.Ctx, what string, cf *cfg, m *lmetric, o *obs, t0, t
 				c.Fail("field-changed", fmt.Sprintf("%s: field %d sent %s stored %s", what, i, want, o.fshow[i]))
 			}
 		}
+	}
+	wantCf := "-"
+	if m.cf != nil {
+		wantCf = fmt.Sprintf("%s:%s:%s:%s:%s:%s", m.cf.min, m.cf.max, m.cf.sum, m.cf.count, encFList(m.cf.values), encFList(m.cf.bounds))
+	}
+	if m.cf != nil && len(m.cf.values) != len(m.cf.bounds) {
+		// only the flat decoder accepts such a histogram (it reads min(len) buckets); malformed input, not judged
+		c.Branch("flat-accepts-length-mismatched-histogram")
+	} else if o.cf != wantCf {
+		c.Fail("compound-changed", fmt.Sprintf("%s: histogram sent %s stored %s", what, wantCf, o.cf))
 	}
 	if o.hash != hashOfTags(o.tags) {
 		c.Fail("hash-not-of-stored-tags", fmt.Sprintf("%s: stored tags hash %d, xxhash of the stored tags %d", what, o.hash, hashOfTags(o.tags)))
@@ -878,17 +891,25 @@ func caseBatch(c *core.Ctx, r *rand.Rand) {
 		m := ms[pi]
 		_ = b2.TryAppend(func(row *metric.BrokerRow) error { return cv.ConvertTo(m.toProto(), row) })
 	}
-	present := make([]int, numShards)
-	for i := range present {
-		present[i] = i
+	// only some shard channels exist (they are created one at a time): routing must still use the
+	// configured shard count; rows of absent shards are written nowhere, the others are unaffected
+	var present []int
+	isPresent := map[int]bool{}
+	mode := r.Intn(4)
+	for i := 0; i < numShards; i++ {
+		if mode == 0 || mode == 1 && r.Intn(2) == 0 || mode == 2 && r.Intn(4) != 0 || mode == 3 && i == numShards-1-r.Intn(numShards) {
+			present = append(present, i)
+			isPresent[i] = true
+		}
 	}
 	groups, err := replica.VerifC16Write(ik.intervals, int32(numShards), present, 0, 0, b2)
-	if err != nil {
-		c.Fail("channel-write-error", err.Error())
-		return
-	}
 	seen2 := map[string]int{}
+	var parts2 []string
 	for _, g := range groups {
+		if !isPresent[g.Shard] {
+			c.Fail("group-for-absent-shard", fmt.Sprintf("databaseChannel.Write handed rows to shard %d, which has no channel (present %v of %d)", g.Shard, present, numShards))
+		}
+		var ids []int
 		for _, row := range g.Rows {
 			seen2[row.Name]++
 			w, ok := want[row.Name]
@@ -897,16 +918,221 @@ func caseBatch(c *core.Ctx, r *rand.Rand) {
 				continue
 			}
 			if w.shard != g.Shard || w.famTime != g.FamilyTime {
-				c.Fail("placement-depends-on-batch-order", fmt.Sprintf("row %s placed at shard %d family %d by Write on the shuffled batch, expected %d/%d", row.Name, g.Shard, g.FamilyTime, w.shard, w.famTime))
+				c.Fail("placement-depends-on-batch-order-or-channels", fmt.Sprintf("row %s placed at shard %d family %d by Write (shuffled batch, channels %v of %d), its jump hash / timestamp say %d/%d", row.Name, g.Shard, g.FamilyTime, present, numShards, w.shard, w.famTime))
 			}
 			if row.Written == 0 || row.Marked {
 				c.Fail("row-dropped-without-window", fmt.Sprintf("row %s not written although the write window is disabled", row.Name))
 			}
+			id, _ := strconv.Atoi(row.Name[1:])
+			ids = append(ids, id)
+		}
+		sort.Ints(ids)
+		sl := make([]string, len(ids))
+		for k, id := range ids {
+			sl[k] = strconv.Itoa(id)
+		}
+		parts2 = append(parts2, fmt.Sprintf("%d:%d:%s:%s", g.Shard, g.FamilyTime, strings.Join(sl, ","), strings.Join(sl, ",")))
+	}
+	anyAbsent := false
+	for nm, w := range want {
+		switch {
+		case isPresent[w.shard] && seen2[nm] != 1:
+			c.Fail("row-not-in-exactly-one-group", fmt.Sprintf("databaseChannel.Write (channels %v of %d): row %s of present shard %d handed out %d times", present, numShards, nm, w.shard, seen2[nm]))
+		case !isPresent[w.shard]:
+			anyAbsent = true
+			if seen2[nm] != 0 {
+				c.Fail("row-of-absent-shard-written", fmt.Sprintf("databaseChannel.Write (channels %v of %d): row %s belongs to absent shard %d but was handed out %d times", present, numShards, nm, w.shard, seen2[nm]))
+			}
 		}
 	}
-	for nm := range want {
-		if seen2[nm] != 1 {
-			c.Fail("row-not-in-exactly-one-group", fmt.Sprintf("databaseChannel.Write: row %s handed out %d times", nm, seen2[nm]))
+	if err != nil && !anyAbsent {
+		c.Fail("channel-write-error", fmt.Sprintf("every shard of the batch has a channel, Write returned %v", err))
+	}
+	if err != nil && !strings.Contains(err.Error(), "channel not found") {
+		c.Fail("channel-write-error", err.Error())
+	}
+	ps := "-"
+	if len(present) > 0 {
+		q := make([]string, len(present))
+		for k, p := range present {
+			q[k] = strconv.Itoa(p)
+		}
+		ps = strings.Join(q, ",")
+	}
+	g2 := "-"
+	if len(parts2) > 0 {
+		g2 = strings.Join(parts2, " ")
+	}
+	e := 0
+	if err != nil {
+		e = 1
+	}
+	c.Op(fmt.Sprintf("routep %d %s %s", numShards, ik.name, ps), fmt.Sprintf("groups %s err=%d", g2, e))
+	if len(present) < numShards {
+		c.Branch("route/some-shard-channels-absent")
+	}
+	if anyAbsent {
+		c.Branch("route/rows-for-absent-shard")
+	}
+}
+
+// ---------------------------------------------------------------- flat streams through one decoder
+
+func (m *lmetric) cfString() string {
+	if m.cf == nil {
+		return "-"
+	}
+	return fmt.Sprintf("%s:%s:%s:%s:%s:%s", m.cf.min, m.cf.max, m.cf.sum, m.cf.count, encFList(m.cf.values), encFList(m.cf.bounds))
+}
+
+// flatAlone decodes one raw flat row with a decoder that has never seen another row (the pool is
+// emptied first: decoders are taken and not given back until a brand-new one comes out).
+func flatAlone(cf *cfg, m *lmetric) (*obs, error) {
+	var dec *metric.BrokerRowFlatDecoder
+	for k := 0; k < 4; k++ {
+		dec, _ = metric.NewBrokerRowFlatDecoder(bytes.NewReader(m.toFlatRaw()), []byte(heapCopy(cf.reqNs)), cf.realEnriched(), cf.lim.real())
+	}
+	if !dec.HasNext() {
+		return nil, fmt.Errorf("no row")
+	}
+	var row metric.BrokerRow
+	if err := dec.DecodeTo(&row); err != nil {
+		return nil, err
+	}
+	o, mism := observe(&row)
+	if o == nil {
+		return nil, fmt.Errorf("unreadable: %s", mism)
+	}
+	return o, nil
+}
+
+// caseFlatStream: several raw flat rows — valid ones, invalid ones, valid and invalid histograms —
+// in one or two requests through flat.ParseReader (one decoder per request, the same pooled decoder
+// for the second request). C16: every valid row is stored exactly as sent and every invalid one is
+// rejected as a whole, whatever the other rows of the stream are.
+func caseFlatStream(c *core.Ctx, r *rand.Rand) {
+	cf := genCfg(r)
+	if r.Intn(3) != 0 {
+		cf.lim = limits{isDefault: true, maxName: 256, maxField: 128, maxTagKey: 128, maxTagVal: 1024, maxTags: 32, maxFields: 256}
+	}
+	n := 2 + r.Intn(7)
+	var ms []*lmetric
+	for i := 0; i < n; i++ {
+		m := genMetric(r, 25, int64(1600000000000+r.Int63n(200000000000)))
+		m.isNil = false
+		var tags []*ltag
+		for _, t := range m.tags {
+			if t != nil {
+				tags = append(tags, t)
+			}
+		}
+		m.tags = tags
+		var fs []*lfield
+		for _, f := range m.fields {
+			if f != nil {
+				fs = append(fs, f)
+			}
+		}
+		m.fields = fs
+		if r.Intn(10) < 6 {
+			m.cf = genCompound(r, 0)
+			if r.Intn(10) < 4 {
+				m.cf = genCompound(r, 200) // defective buckets / mmsc
+			}
+			if r.Intn(3) == 0 {
+				m.fields = nil
+			}
+		}
+		if !sortSafe(cf, m) {
+			m.tags = nil
+		}
+		m.name = "r" + strconv.Itoa(i)
+		ms = append(ms, m)
+	}
+	c.Op(cf.enc(), "ok")
+	// the same metrics through the protobuf converter and the model (gives the case its ops)
+	for _, m := range ms {
+		var row metric.BrokerRow
+		if err, _, _ := convertProto(cf, m, &row); err != nil {
+			c.Op("conv "+m.enc(), "err "+errKind(err))
+		} else if o, _ := observe(&row); o != nil {
+			c.Op("conv "+m.enc(), o.line(m.ts, 0, 0))
+		} else {
+			c.Op("conv "+m.enc(), "unreadable")
 		}
 	}
+	// requests: the whole stream at once, or two requests (decoder reuse through the pool)
+	cut := n
+	if r.Intn(2) == 0 {
+		cut = 1 + r.Intn(n-1)
+	}
+	stored := map[string][]*obs{}
+	var order []string
+	for _, part := range [][]*lmetric{ms[:cut], ms[cut:]} {
+		if len(part) == 0 {
+			continue
+		}
+		b, err := parseFlat(cf, part)
+		if err != nil || b == nil {
+			continue // "empty metrics": no row of this request was accepted
+		}
+		for k := range b.Rows() {
+			o, mism := observe(&b.Rows()[k])
+			if o == nil {
+				c.Fail("row-unreadable", "flat stream: "+mism)
+				continue
+			}
+			stored[o.name] = append(stored[o.name], o)
+			order = append(order, o.name)
+		}
+	}
+	c.NonTrivial()
+	var wantOrder []string
+	nAcc, nRej := 0, 0
+	for _, m := range ms {
+		oa, ea := flatAlone(cf, m)
+		gs := stored[m.name]
+		switch {
+		case ea != nil && len(gs) > 0:
+			c.Fail("flat-invalid-row-stored-in-stream", fmt.Sprintf("row %s is rejected on its own (%v) but stored when sent in the stream %s", m.enc(), ea, streamShape(ms, cut)))
+		case ea == nil && len(gs) == 0:
+			c.Fail("flat-valid-row-dropped-in-stream", fmt.Sprintf("row %s is accepted on its own but dropped when sent in the stream %s", m.enc(), streamShape(ms, cut)))
+		case ea == nil && len(gs) > 1:
+			c.Fail("flat-row-stored-twice", fmt.Sprintf("row %s stored %d times", m.name, len(gs)))
+		case ea == nil:
+			nAcc++
+			wantOrder = append(wantOrder, m.name)
+			if gs[0].line(1, 0, 0) != oa.line(1, 0, 0) {
+				c.Fail("flat-row-depends-on-other-rows", fmt.Sprintf("row %s alone is stored as %s, inside the stream %s as %s", m.name, oa.line(1, 0, 0), streamShape(ms, cut), gs[0].line(1, 0, 0)))
+			}
+			checkCanonical(c, "flat", cf, m, gs[0], 0, 0)
+		default:
+			nRej++
+		}
+	}
+	if strings.Join(order, ",") != strings.Join(wantOrder, ",") && len(order) == len(wantOrder) {
+		c.Fail("flat-stream-order", fmt.Sprintf("rows stored in order %v, sent in order %v", order, wantOrder))
+	}
+	c.Branch(fmt.Sprintf("flat-stream/accepted=%d", bucket(nAcc)))
+	c.Branch(fmt.Sprintf("flat-stream/rejected=%d", bucket(nRej)))
+	if cut < n {
+		c.Branch("flat-stream/two-requests")
+	}
+}
+
+// streamShape describes a stream for failure messages: per row h (valid histogram alone), H (histogram), - (none); | = request boundary.
+func streamShape(ms []*lmetric, cut int) string {
+	var sb strings.Builder
+	for i, m := range ms {
+		if i == cut {
+			sb.WriteByte('|')
+		}
+		if m.cf != nil {
+			sb.WriteString("H(" + m.cfString() + ")")
+		} else {
+			sb.WriteByte('-')
+		}
+		sb.WriteByte(' ')
+	}
+	return sb.String()
 }
